@@ -62,7 +62,7 @@ def case_line(cid, mode, files):
 def run_impl(ctx, impl, jobs):
     """jobs: list of (cid, mode, files).  Returns cid -> dict."""
     chunks = [jobs[i::NWORK] for i in range(NWORK)]
-    tmo = "6" if ctx.tier == "quick" else "10"
+    tmo = "4" if ctx.tier == "quick" else "8"
 
     def work(k):
         if not chunks[k]:
@@ -459,6 +459,11 @@ def directed_cases():
     add("node-bad-range", SPEC_OK + b'device "d0" "s" "/bin/cat |&"\nnode "t[1" "d0"\n')                         # F16 (fixed)
     add("node-bad-plug-range", SPEC_OK + b'device "d0" "s" "/bin/cat |&"\nnode "t1" "d0" "p[3-1]"\n')
     add("node-huge-range", SPEC_OK + b'device "d0" "s" "/bin/cat |&"\nnode "t[0-18446744073709551615]" "d0"\n')  # F2 (fixed)
+    # hostlist.c findings of the C14/C06 check that are reachable from a node / alias line while reading configuration
+    add("node-saturated-range-suffix", SPEC_OK + b'device "d0" "s" "/bin/cat |&"\nnode "t[99999999999999999999]x" "d0"\n')
+    add("node-range-over-2e31", SPEC_OK + b'device "d0" "s" "/bin/cat |&"\nnode "n[3000000000,1]" "d0"\n')
+    add("node-name-5000", SPEC_OK + b'device "d0" "s" "/bin/cat |&"\nnode "' + b"a" * 5000 + b'" "d0"\n')                # F3
+    add("alias-name-1024", SPEC_OK + DEVNODE + b'alias "all" "' + b"b" * 1024 + b'"\n')
     add("node-empty", SPEC_OK + b'device "d0" "s" "/bin/cat |&"\nnode "" "d0"\n')
     add("node-padded", SPEC_OK + b'device "d0" "s" "/bin/cat |&"\nnode "t[01-03],t1" "d0"\n')
     add("alias-ok", ok + b'alias "all" "n[1-3]"\n')
@@ -632,7 +637,7 @@ def compare(r, codes, msgs):
         lst = r["lex"]["st"]
         if lst == "exit:0":
             if r["mlex"]["end"] != "eof" or it != mt + ["EOF"]:
-                return ("R-LEX.tokens", "end=%s first difference at token %d: impl=%s model=%s" % (r["mlex"]["end"],) + first_diff(it, mt + ["EOF"]))
+                return ("R-LEX.tokens", "end=%s first difference at token %d: impl=%s model=%s" % ((r["mlex"]["end"],) + first_diff(it, mt + ["EOF"])))
         elif lst == "exit:1":
             if not r["mlex"]["end"].startswith("exit") or it != mt:
                 return ("R-LEX.tokens", "lexer exit: model end=%s first difference at token %d: impl=%s model=%s" % ((r["mlex"]["end"],) + first_diff(it, mt)))
